@@ -165,6 +165,9 @@ pub fn cases() -> Vec<Case> {
     let base = "CREATE TABLE \"t\" (\"x\" integer, \"y\" text)";
     let add = run(|| Table::alter().table(a("t")).add_column(ColumnDef::new(a("n")).string_len(10).not_null().default("v")).to_string(SqliteQueryBuilder));
     if let Some(s) = add { out.push(Case::new("alter add column").ok(base).ok(s).check("SELECT name, \"notnull\", dflt_value FROM pragma_table_xinfo('t')", r#"[["x",0,null],["y",0,null],["n",1,"'v'"]]"#)); }
+    // one action per statement: a second option is refused (panic) - or, if rendered, must not be silently dropped
+    let two = run(|| Table::alter().table(a("t")).add_column(ColumnDef::new(a("n")).integer()).add_column(ColumnDef::new(a("m")).integer()).to_string(SqliteQueryBuilder));
+    if let Some(s) = two { out.push(Case::new("alter two options").ok(base).ok(s).check("SELECT name FROM pragma_table_xinfo('t')", r#"[["x"],["y"],["n"],["m"]]"#)); }
     let ren = run(|| Table::alter().table(a("t")).rename_column(a("y"), a("w")).to_string(SqliteQueryBuilder));
     if let Some(s) = ren { out.push(Case::new("alter rename column").ok(base).ok(s).check("SELECT name FROM pragma_table_xinfo('t')", r#"[["x"],["w"]]"#)); }
     let drp = run(|| Table::alter().table(a("t")).drop_column(a("y")).to_string(SqliteQueryBuilder));
